@@ -150,8 +150,8 @@ Lemma glencoe_parse_tree_S fuel fi here parent node :
   match jget "id" node with Err e => Err e | Ok fid =>
   match finfo_get fi fid "type" with Err e => Err e | Ok tyv =>
   match finfo_get fi fid "name" with Err e => Err e | Ok nmv =>
-  match jstr tyv with Err e => Err e | Ok fty =>
-  match jstr nmv with Err e => Err e | Ok fname =>
+  match jstr tyv with Err _ => Err FlamaException | Ok fty =>
+  match jstr nmv with Err _ => Err FlamaException | Ok fname =>
     if negb (gl_known_type fty) then Err FlamaException else
     if jhas "children" node then
       match jget "children" node with Err e => Err e | Ok chv =>
@@ -2325,3 +2325,18 @@ Print Assumptions glencoe_norm_idempotent.
 Print Assumptions glencoe_norm_ok.
 Print Assumptions glencoe_roundtrip_norm.
 Print Assumptions glencoe_read_nonempty.
+
+(* a root feature whose "name" is null is a library error; with a string it is read *)
+Example glencoe_read_bad_name :
+  glencoe_read
+    (VMap [("features", VMap [("r", VMap [("name", VNone); ("optional", VBool false); ("type", VStr "FEATURE")])]);
+           ("tree", VMap [("id", VStr "r")]);
+           ("constraints", VMap [])])
+  = Err FlamaException
+  /\ glencoe_read
+       (VMap [("features", VMap [("r", VMap [("name", VStr "r"); ("optional", VBool false); ("type", VStr "FEATURE")])]);
+              ("tree", VMap [("id", VStr "r")]);
+              ("constraints", VMap [])])
+     = Ok {| proot := PFeature (mk_info "r") PNone [] []; pctcs := [] |}.
+Proof. split; vm_compute; reflexivity. Qed.
+Print Assumptions glencoe_read_bad_name.
